@@ -51,7 +51,7 @@ check('C10', 'effect-ordering (typestate) analysis: no read of an element-refere
 
 check('C01', 'array-segmentation abstract interpretation of every inserting / removing / replacing vector member (segment bounds = linear forms over size, position, count; Fourier-Motzkin constraint store; helpers inlined; memory algorithms as transformers; final storage compared with the std::vector result) + typestate / dataflow rules over the instantiated program (size-word write discipline, capacity-check dominance, single-pass iterator use, union-alternative state) + record-layout facts',
       'SEG-LAYOUT decides, for every instantiation of the matrix and every N, P, C at once, that each of insert x5 / emplace / erase x2 / push_back / emplace_back / pop_back / clear / resize x2 / assign x3 / append x4 leaves on every normal path exactly the storage std::vector leaves (which slot holds which old element, the new elements in order, size(), nothing alive beyond it): the one-step refinement of C01 for these operations, multi-pass ranges, normal paths. Plus structural clauses each necessary for C01 (inline encoding discipline, inline span, single traversal of input ranges, capacity check before every construct, size commit follows lifetime op). Sequences over whole histories follow by induction only for the operations covered; exceptional paths, single-pass ranges, swap / assignment operators and element values are not decided by it.',
-      'Also decided: RET-POS (abstract interpretation - storage versions x linear offsets - of every position-returning member: the returned iterator is the index of the position argument in the current storage), VALUE-INIT (who-may-call: no default-initialisation in the vector classes), BYTECMP, ALIAS, result types (SIG witnesses), XCHG-LAYOUT (swap_impl / move_construct / move_assign of SmallVectorBase interpreted with two objects for every pair of states of the inline encoding: each vector decodes afterwards to the size and elements it was to receive, a moved-from vector is empty and inline, every heap block ends owned once or released once with its capacity), UNION-STATE (the heap pointer of the pointer / inline-elements union is read only where the vector is known to be on the heap; requirements of private helpers travel to their call sites), SIGN-DIFF (no difference of two unsigned sizes is computed in the narrow unsigned type and then widened to a signed one). Partial: necessary conditions only; element sequences over histories are not decided.',
+      'Also decided: RET-POS (abstract interpretation - storage versions x linear offsets - of every position-returning member: the returned iterator is the index of the position argument in the current storage), VALUE-INIT (who-may-call: no default-initialisation in the vector classes), BYTECMP, ALIAS, result types (SIG witnesses), XCHG-LAYOUT (swap_impl / move_construct / move_assign of SmallVectorBase interpreted with two objects for every pair of states of the inline encoding: each vector decodes afterwards to the size and elements it was to receive, a moved-from vector is empty and inline, every heap block ends owned once or released once with its capacity; XCHG-STD: the same for StdVectorBase), UNION-STATE (the heap pointer of the pointer / inline-elements union is read only where the vector is known to be on the heap; requirements of private helpers travel to their call sites), SIGN-DIFF (no difference of two unsigned sizes is computed in the narrow unsigned type and then widened to a signed one). Partial: necessary conditions only; element sequences over histories are not decided.',
       'DESIGN.md section 4, C01')
 
 check('C02', 'who-may-call analysis of byte copies over the resolved call graph (incl. libstdc++ bodies) per element archetype + overload-pair effect signatures + typestate (normal paths) + array-segmentation abstract interpretation with slot liveness (construct only on raw, assign / destroy / read only on alive, exactly [0,size()) alive on return)',
